@@ -211,3 +211,117 @@ Proof.
   rewrite He, Hn, !N.eqb_refl. simpl. apply orb_true_iff. left.
   apply existsb_exists. exists (q_sid q). split; [exact Hv|apply N.eqb_refl].
 Qed.
+
+(* ------------------------------------------------------------------------------------------ *)
+(* The declarative reading (osv_decl) agrees with the linear evaluation on well-formed ranges. *)
+
+Definition closerb (v : Z) (c : event) : bool :=
+  match e_kind c with Introduced => false | Fixed => ev_le c v | LastAffected => ev_lt c v end.
+
+Fixpoint decl_rec (s : list event) (v : Z) : bool :=
+  match s with
+  | [] => false
+  | e :: t => (is_intro e && ev_le e v && negb (existsb (closerb v) t)) || decl_rec t v
+  end.
+
+Lemma closes_lt i c v : sort_cmp i c = Lt -> closes i c v = closerb v c.
+Proof. unfold closes, closerb. intros ->. reflexivity. Qed.
+
+Lemma closes_not_lt i c v : sort_cmp i c <> Lt -> closes i c v = false.
+Proof. unfold closes. destruct (sort_cmp i c); congruence. Qed.
+
+Lemma existsb_false {A} (f : A -> bool) l : (forall x, In x l -> f x = false) -> existsb f l = false.
+Proof.
+  induction l as [|x l IH]; intros H; [reflexivity|]. simpl.
+  rewrite H by (left; reflexivity). apply IH. intros y Hy. apply H. right. exact Hy.
+Qed.
+
+Lemma decl_unfold t : forall pre v,
+  ssorted sort_cmp t = true ->
+  (forall a b, In a pre -> In b t -> sort_cmp a b = Lt) ->
+  existsb (fun i => is_intro i && ev_le i v && negb (existsb (fun c => closes i c v) (pre ++ t))) t
+  = decl_rec t v.
+Proof.
+  induction t as [|e t IH]; intros pre v HS Hpre; [reflexivity|].
+  simpl in HS. apply andb_true_iff in HS as [G S].
+  cbn [existsb decl_rec]. f_equal.
+  - f_equal. f_equal. rewrite existsb_app. cbn [existsb].
+    rewrite (existsb_false _ pre).
+    2:{ intros c Hc. apply closes_not_lt. rewrite (sort_cmp_antisym c e).
+        rewrite (Hpre c e Hc (or_introl eq_refl)). simpl. congruence. }
+    rewrite (closes_not_lt e e) by (rewrite (cmp_refl_eq sort_cmp sort_cmp_antisym); congruence).
+    simpl. apply existsb_ext_in. intros c Hc. apply closes_lt. eapply all_gt_ltb; eauto.
+  - specialize (IH (pre ++ [e]) v S).
+    rewrite <- app_assoc in IH. simpl in IH. apply IH.
+    intros a b Ha Hb. apply in_app_or in Ha as [Ha|[<-|[]]].
+    + apply Hpre; [exact Ha|right; exact Hb].
+    + eapply all_gt_ltb; eauto.
+Qed.
+
+Lemma osv_decl_rec s v : ssorted sort_cmp s = true -> osv_decl s v = decl_rec s v.
+Proof. intros HS. unfold osv_decl. apply (decl_unfold s [] v HS). intros a b []. Qed.
+
+Lemma above_no_closer v t : (forall y, In y t -> search_cmp y v = Gt) ->
+  existsb (closerb v) t = false /\ decl_rec t v = false.
+Proof.
+  induction t as [|c t IH]; intros H; [split; reflexivity|].
+  destruct IH as [I1 I2]; [intros y Hy; apply H; right; exact Hy|].
+  assert (Hc := H c (or_introl eq_refl)).
+  assert (ev_le c v = false /\ ev_lt c v = false) as [L1 L2].
+  { unfold search_cmp in Hc. unfold ev_le, ev_lt. destruct (key c) as [r|]; [|discriminate].
+    rewrite Z.compare_gt_iff in Hc. split; [apply Z.leb_gt|apply Z.ltb_ge]; lia. }
+  split; cbn [existsb decl_rec].
+  - rewrite I1. unfold closerb. rewrite L1, L2. destruct (e_kind c); reflexivity.
+  - rewrite I2, L1, andb_false_r. reflexivity.
+Qed.
+
+Lemma decide_decl s : forall p v, ssorted sort_cmp s = true -> alternates (negb p) s = true ->
+  decide p s v = (p && negb (existsb (closerb v) s)) || decl_rec s v.
+Proof.
+  induction s as [|e s IH]; intros p v HS HA.
+  - simpl. rewrite andb_true_r, orb_false_r. reflexivity.
+  - simpl in HS, HA. apply andb_true_iff in HS as [G S]. apply andb_true_iff in HA as [A1 A2].
+    apply eqb_prop in A1. rewrite negb_involutive in A2.
+    assert (Habove : search_cmp e v <> Lt -> forall y, In y s -> search_cmp y v = Gt).
+    { intros Hn y Hy. apply (search_after e y v); [eapply all_gt_ltb; eauto|exact Hn]. }
+    cbn [decide existsb decl_rec].
+    destruct (search_cmp e v) eqn:E.
+    + destruct (above_no_closer v s (Habove ltac:(congruence))) as [N1 N2].
+      rewrite N1, N2. unfold search_cmp in E. unfold closerb, is_inclusive, ev_le, ev_lt. unfold is_intro in A1 |- *.
+      destruct (key e) as [r|]; [|discriminate]. apply Z.compare_eq in E. subst r.
+      rewrite Z.leb_refl, Z.ltb_irrefl.
+      destruct (e_kind e), p; simpl in *; congruence.
+    + assert (ev_le e v = true /\ ev_lt e v = true) as [L1 L2].
+      { unfold search_cmp in E. unfold ev_le, ev_lt. destruct (key e) as [r|]; [|auto].
+        rewrite Z.compare_lt_iff in E. split; [apply Z.leb_le|apply Z.ltb_lt]; lia. }
+      rewrite IH; [|exact S|rewrite A1, negb_involutive; exact A2].
+      assert (Hc : closerb v e = negb (is_intro e)).
+      { unfold closerb, is_intro. rewrite L1, L2. destruct (e_kind e); reflexivity. }
+      rewrite L1, Hc, A1. destruct p; simpl; reflexivity.
+    + destruct (above_no_closer v (e :: s)) as [N1 N2].
+      { intros y [<-|Hy]; [exact E|apply Habove; [congruence|exact Hy]]. }
+      cbn [existsb decl_rec] in N1, N2. rewrite N1, N2. simpl. rewrite andb_true_r, orb_false_r. reflexivity.
+Qed.
+
+Lemma existsb_perm {A} (f : A -> bool) l l' : Permutation l l' -> existsb f l = existsb f l'.
+Proof.
+  induction 1; simpl; auto.
+  - congruence.
+  - destruct (f x), (f y); reflexivity.
+  - congruence.
+Qed.
+
+Lemma osv_decl_perm l l' v : Permutation l l' -> osv_decl l v = osv_decl l' v.
+Proof.
+  intros HP. unfold osv_decl. rewrite (existsb_perm _ l l' HP).
+  apply existsb_ext_in. intros i _. rewrite (existsb_perm _ l l' HP). reflexivity.
+Qed.
+
+Theorem range_hit_eq_decl evs v : wf_events evs = true -> range_hit evs v = osv_decl evs v.
+Proof.
+  intros H. assert (H' := H). unfold wf_events, wf_sorted in H'. apply andb_true_iff in H' as [HS HA].
+  rewrite range_hit_unfold, hit_sorted_decide by exact HS.
+  rewrite (osv_decl_perm evs (isort sort_cmp evs) v (isort_perm sort_cmp evs)).
+  rewrite osv_decl_rec by exact HS.
+  rewrite (decide_decl _ false v HS HA). reflexivity.
+Qed.
